@@ -227,6 +227,18 @@ func runTCPCase(ops []tcpOp) []tcpRes {
 			req := httptest.NewRequest(op.Method, op.Path, strings.NewReader(op.Body))
 			req.Header.Set("User-Agent", "verif-harness")
 			rec := httptest.NewRecorder()
+			if op.Ms > 0 {
+				// bounded: a request that does not return within Ms is reported as stuck (status -1) and left behind
+				done := make(chan struct{})
+				go func() { h.ServeHTTP(rec, req); close(done) }()
+				select {
+				case <-done:
+					r.Status, r.Body, r.OK = rec.Code, rec.Body.String(), rec.Code < 400
+				case <-time.After(time.Duration(op.Ms) * time.Millisecond):
+					r.Status, r.End = -1, "stuck"
+				}
+				break
+			}
 			h.ServeHTTP(rec, req)
 			r.Status, r.Body, r.OK = rec.Code, rec.Body.String(), rec.Code < 400
 		case "upstream":
